@@ -16,9 +16,10 @@
 //                  Oracle: see run_pipeline().
 //
 // Scenario encoding (every op list is valid; all integers are reduced into their ranges):
-//   cfg  segmode chunk two_stage rd_mode rd_chunk rd_passes rd_pause
-//   req  method kind tshape tseed nhdr hseed blen bkind bseed [plan rsize rank]     (the [..] part only in `pipeline`)
+//   cfg  segmode chunk stages-1 rd_mode rd_chunk rd_passes rd_pause
+//   req  method kind tshape tseed nhdr hseed blen bkind bseed [plan rsize rank chain delays]   (the [..] part only in `pipeline`)
 //   cut  kind r off gap
+//   tail kind k flags nbody      an incomplete last request: valid head, extreme / unsatisfiable Content-Length (build_tail)
 //   seg  b0 b1 b2 ...                                                               (only in `parser_total`)
 #define VERIF_MAIN
 #include "../common/verif.h"
@@ -30,6 +31,7 @@
 #include <sys/socket.h>
 #include <sys/un.h>
 #include <sys/ioctl.h>
+#include <sys/resource.h>
 #include <algorithm>
 #include <memory>
 
@@ -68,7 +70,7 @@ std::string printable(const std::string &s, size_t max = 60) {
   return o;
 }
 
-enum { CFG, REQ, CUT, SEG };
+enum { CFG, REQ, CUT, SEG, TAIL };
 const char *kMethods[7] = {"GET", "HEAD", "PUT", "POST", "TRACE", "OPTIONS", "DELETE"};
 const Method kMethodEnum[7] = {Method::kGet, Method::kHead, Method::kPut, Method::kPost, Method::kTrace, Method::kOptions, Method::kDelete};
 const int kMaxReq = 6, kMaxCuts = 48;
@@ -265,11 +267,51 @@ struct Pipe {
   std::vector<size_t> cuts;        // sorted distinct positions in [1, size-1]
   std::map<size_t, int> gap;       // extra passes to wait after the segment that ends at this cut (pipeline only)
   bool cut_method = false, cut_crlf = false, cut_hname = false, cut_hline = false, cut_blank = false, cut_body = false,
-       cut_startline = false, cut_boundary = false;
+       cut_startline = false, cut_boundary = false, cut_tail = false;
+  // optional incomplete last request (see build_tail)
+  size_t tail_off = 0; std::string tail_wire, tail_declared; size_t tail_head = 0, tail_body = 0; int tail_kind = 0;
 };
+
+// `tail kind k flags nbody`: a syntactically valid request head behind the pipeline whose declared Content-Length is a
+// valid decimal number that the nbody (0..12) body bytes sent can never satisfy - the request must never be reported
+// complete, however extreme the number.  kind 1: 2^64 - (length of this head); 2: 2^64 - k' (k' = 2..head length + 60);
+// 3: a constant around 2^31 / 2^32 / 2^53 / 2^63 / 10^19 / 2^64-2; 4: just too large (nbody + 1 + k); 0: no tail.
+// flags bit0: leading zeros, bit1: an extra header in front, bit2: no blank after the colon.
+struct Tail { std::string wire, declared; size_t head = 0, body = 0; int kind = 0; };
+std::string dec_u64(uint64_t v) { return std::to_string((unsigned long long)v); }
+Tail build_tail(const Op &op, int index, bool with_id) {
+  Tail t;
+  t.kind = (int)op.in(0, 0, 4);
+  if (t.kind == 0) return t;
+  uint64_t k = (uint64_t)op.in(1, 0, 400);
+  int flags = (int)op.in(2, 0, 7);
+  t.body = (size_t)op.in(3, 0, 12);
+  std::string pre = "POST /tail HTTP/1.1\r\n";
+  if (with_id) pre += "X-Req: " + std::to_string(index) + "\r\n";
+  if (flags & 2) pre += "X-Pad: " + std::string((size_t)(k % 23), 'p') + "x\r\n";
+  pre += (flags & 4) ? "Content-Length:" : "Content-Length: ";
+  std::string zeros = (flags & 1) ? std::string(1 + (size_t)(k % 5), '0') : "";
+  // every value of kind 1/2 has 20 digits, so the head length does not depend on the value
+  size_t head20 = pre.size() + zeros.size() + 20 + 4;
+  uint64_t n;
+  switch (t.kind) {
+    case 1: n = (uint64_t)0 - (uint64_t)head20; break;
+    case 2: n = (uint64_t)0 - (2 + k % (head20 + 60)); break;
+    case 3: { static const uint64_t c[] = {2147483647ull, 2147483648ull, 4294967295ull, 4294967296ull, 4294967297ull, 9007199254740993ull,
+                                           9223372036854775807ull, 9223372036854775808ull, 10000000000000000000ull, 18446744073709551614ull};
+              n = c[k % 10]; break; }
+    default: n = (uint64_t)t.body + 1 + k; break;
+  }
+  t.declared = dec_u64(n);
+  t.wire = pre + zeros + t.declared + "\r\n\r\n";
+  t.head = t.wire.size();
+  for (size_t i = 0; i < t.body; ++i) t.wire += (char)('a' + i);
+  return t;
+}
 
 void classify_cuts(Pipe &p) {
   for (size_t c : p.cuts) {
+    if (!p.tail_wire.empty() && c >= p.tail_off) { if (c > p.tail_off) p.cut_tail = true; else p.cut_boundary = true; continue; }
     size_t i = std::upper_bound(p.start.begin(), p.start.end(), c) - p.start.begin() - 1;
     const MReq &m = p.reqs[i]; size_t o = c - p.start[i];
     if (o == 0) { p.cut_boundary = true; continue; }
@@ -313,13 +355,14 @@ void plan_cuts(Pipe &p, const Op *cfg, const std::vector<const Op*> &cutops, siz
   classify_cuts(p);
 }
 
-struct Parsed { const Op *cfg = nullptr; std::vector<const Op*> reqs, cuts; };
+struct Parsed { const Op *cfg = nullptr, *tail = nullptr; std::vector<const Op*> reqs, cuts; };
 Parsed split_ops(const Scenario &s) {
   Parsed r;
   for (auto &op : s.ops) {
     if (op.code == CFG && !r.cfg) r.cfg = &op;
     else if (op.code == REQ && (int)r.reqs.size() < kMaxReq) r.reqs.push_back(&op);
     else if (op.code == CUT && (int)r.cuts.size() < kMaxCuts) r.cuts.push_back(&op);
+    else if (op.code == TAIL && !r.tail) r.tail = &op;
   }
   return r;
 }
@@ -331,6 +374,11 @@ Pipe build_pipe(const Parsed &ps, bool with_id, size_t max_dense) {
     p.start.push_back(p.wire.size());
     p.wire += p.reqs.back().wire;
   }
+  if (ps.tail && !p.reqs.empty()) {
+    Tail t = build_tail(*ps.tail, (int)p.reqs.size(), with_id);
+    p.tail_off = p.wire.size(); p.tail_wire = t.wire; p.tail_declared = t.declared; p.tail_head = t.head; p.tail_body = t.body; p.tail_kind = t.kind;
+    p.wire += t.wire;
+  }
   if (!p.reqs.empty()) plan_cuts(p, ps.cfg, ps.cuts, max_dense);
   return p;
 }
@@ -338,6 +386,31 @@ Pipe build_pipe(const Parsed &ps, bool with_id, size_t max_dense) {
 // ---------------------------------------------------------------------------------------------- the server's receive path
 // Mirrors Server::Impl::onTcpReceived: append the segment, then parse / drop consumed / take finished requests until the
 // buffer is empty, the parser wants more data or it failed (the server then drops the connection: nothing more is fed).
+// numeric comparison of a decimal digit string with a size
+bool digits_equal(const std::string &digits, size_t v) {
+  size_t z = 0; while (z + 1 < digits.size() && digits[z] == '0') ++z;
+  return digits.substr(z) == std::to_string((unsigned long long)v);
+}
+bool all_digits(const std::string &s) { if (s.empty()) return false; for (unsigned char c : s) if (c < '0' || c > '9') return false; return true; }
+
+// What must hold for every request a parser reports complete, whatever the input was:
+//   * the bytes consumed for it are a (non-empty) head followed by exactly its body - nothing is consumed twice, the
+//     consumed position never steps back behind bytes that belong to the request;
+//   * if it declares its length as a decimal number, the body has exactly that many bytes (a request is never
+//     reported complete before its declared body has arrived).
+std::string declared_length_violation(const Request &r) {
+  auto it = r.headers.find("Content-Length");
+  if (it == r.headers.end() || !all_digits(it->second) || digits_equal(it->second, r.body.size())) return "";
+  return "request reported complete with a body of " + std::to_string(r.body.size()) + " bytes although its Content-Length declares " + printable(it->second, 48);
+}
+std::string completed_request_violation(const Request &r, const std::string &consumed) {
+  std::string d = declared_length_violation(r);
+  if (!d.empty()) return d;
+  if (consumed.size() <= r.body.size() || consumed.compare(consumed.size() - r.body.size(), std::string::npos, r.body) != 0)
+    return "the " + std::to_string(consumed.size()) + " bytes consumed for a completed request are not its head followed by its " + std::to_string(r.body.size()) + " body bytes (bytes consumed twice or the consumed position stepped back)";
+  return "";
+}
+
 struct Receiver {
   RequestParser parser;
   std::string buf;
@@ -345,6 +418,7 @@ struct Receiver {
   bool failed = false;
   size_t calls = 0, max_stage = 0;
   std::string err;    // oracle violation
+  std::string cur;    // bytes consumed since the last completed request
 
   bool feed(const char *p, size_t n) {
     if (failed) return true;
@@ -360,6 +434,7 @@ struct Receiver {
       size_t rs = parser.parse(exact.get(), given);
       ++calls;
       if (rs > given) { err = "parse() claims to have consumed " + std::to_string(rs) + " of " + std::to_string(given) + " bytes"; return false; }
+      cur.append(buf, 0, rs);
       buf.erase(0, rs);
       auto st = parser.state();
       max_stage = std::max(max_stage, (size_t)st == (size_t)RequestParser::State::kFail ? 0 : (size_t)st);
@@ -368,6 +443,9 @@ struct Receiver {
         if (!r) { err = "state kFinishedAll but getRequest() returned nullptr"; return false; }
         out.emplace_back(r);
         if (parser.state() != RequestParser::State::kInit) { err = "parser not back in kInit after getRequest()"; return false; }
+        err = completed_request_violation(*r, cur);
+        if (!err.empty()) return false;
+        cur.clear();
       } else if (st == RequestParser::State::kFail) {
         failed = true; break;
       } else {
@@ -447,7 +525,14 @@ std::string feed_and_compare(const Pipe &p, const std::vector<size_t> &cuts, con
     std::string d = request_diff(*rx.out[i], p.reqs[i]);
     if (!d.empty()) return std::string(label) + ": request " + std::to_string(i) + ": " + d;
   }
-  if (!rx.buf.empty()) return std::string(label) + ": " + std::to_string(rx.buf.size()) + " bytes left unconsumed after the last request";
+  if (p.tail_wire.empty()) {
+    if (!rx.buf.empty()) return std::string(label) + ": " + std::to_string(rx.buf.size()) + " bytes left unconsumed after the last request";
+  } else {
+    // the incomplete last request: never complete (checked above by the count), never a failure, and what is still
+    // in the buffer is an unconsumed rest of it
+    if (rx.buf.size() > p.tail_wire.size() || p.tail_wire.compare(p.tail_wire.size() - rx.buf.size(), std::string::npos, rx.buf) != 0)
+      return std::string(label) + ": the " + std::to_string(rx.buf.size()) + " bytes left in the buffer are not the rest of the incomplete last request";
+  }
   return "";
 }
 
@@ -472,6 +557,9 @@ std::string run_segmentation(const Scenario &s, CaseInfo &info) {
   info.cls_if(p.cut_blank, "cut_at_blank_line");
   info.cls_if(p.cut_body, "cut_inside_body");
   info.cls_if(p.cut_boundary, "cut_at_request_boundary");
+  info.cls_if(p.tail_kind != 0, "incomplete_last_request");
+  info.cls_if(p.tail_kind == 1 || p.tail_kind == 2, "incomplete_last_request_length_near_2^64");
+  info.cls_if(p.tail_kind != 0 && !p.cut_tail, "incomplete_last_request_head_in_one_segment");
   info.cls_if(p.cuts.size() + 1 >= p.wire.size() && p.wire.size() > 1, "single_byte_segments");
   info.cls_if(p.reqs.size() >= 3, "three_or_more_requests");
   info.cls_if(esc, "percent_escapes"); info.cls_if(ows, "optional_whitespace_around_value");
@@ -491,9 +579,20 @@ std::string run_segmentation(const Scenario &s, CaseInfo &info) {
 //     stream (EOF; ECONNRESET is accepted as well: the kernel reports it instead of EOF when the server closes a
 //     socket with unread client data in its queue);
 //   * without a closing request nothing arrives beyond the expected responses.
+//   * handler chains (1-4 Server::use() stages): per request every stage either answers, calls next() inside the
+//     callback, keeps the NextFunc (with or without the ContextSptr) and calls it d loop passes later, or calls
+//     next() and keeps the context a while longer; stages run in chain order, each at most once per request, with the
+//     context of that request; the response on the wire is the one written by the stage the model says (X-Stage),
+//     or the server's default 404 when the chain ends without an answer; it is written only once the whole chain
+//     is through (an early default response shows up as a wrong response j);
+//   * a request is never handed over with a body shorter than the Content-Length it declares; the incomplete last
+//     request (`tail`) is never handed over and never answered; the handler is not called more often than requests
+//     were sent (a server that spins over the same bytes is stopped by an exception thrown from the handler).
 // Left free: number of passes between cause and effect, whether requests behind the closing one reach a handler,
 // whether the connection stays open without a closing request, header layout of the responses.
-struct Held { int due; int rank; int idx; bool at_next; tbox::http::server::ContextSptr ctx; };
+struct Held { int due; int rank; int idx; bool at_next; bool counts; tbox::http::server::ContextSptr ctx; };
+struct Deferred { int due; int rank; int idx; int stage; tbox::http::server::NextFunc next; tbox::http::server::ContextSptr ctx; };
+struct Runaway {};
 
 // Defect 4 of NOTES.md (shutdown(SHUT_RD) on the closing request drops the connection while output is still pending)
 // is repaired by proposed-fixes/04.  Should that repair be declined, set this to true: the check then skips exactly
@@ -504,7 +603,7 @@ static const bool kAvoid_close_with_pending_output = false;
 char body_byte(int id, size_t j) { return (char)((id * 131 + j * 7 + j / 251) & 0xff); }
 
 std::string run_pipeline(const Scenario &s, CaseInfo &info) {
-  static bool once = [] { signal(SIGPIPE, SIG_IGN); return true; }(); (void)once;
+  static bool once = [] { signal(SIGPIPE, SIG_IGN); struct rlimit rl; if (getrlimit(RLIMIT_NOFILE, &rl) == 0) { rl.rlim_cur = rl.rlim_max; setrlimit(RLIMIT_NOFILE, &rl); } return true; }(); (void)once;
   Parsed ps = split_ops(s);
   if (ps.reqs.empty()) return "";
   Pipe p = build_pipe(ps, true, 160);
@@ -524,7 +623,31 @@ std::string run_pipeline(const Scenario &s, CaseInfo &info) {
     for (int i = 0; i <= close_pos; ++i) { pending |= plan[i].k > 0; bytes += plan[i].rsize; }
     if (pending || bytes > 60000) { stats().counters["avoided_close_with_pending_output"]++; return ""; }
   }
-  const bool two_stage = ps.cfg && ps.cfg->in(2, 0, 1);
+  // handler chain: cfg a2 = stages - 1; req a12 = one base-6 digit per stage (action), a13 = one base-8 digit per stage (delay - 1)
+  //   stage before the last: 0/5 next() inside the callback, 1 answer here, 2 keep the NextFunc and call it d passes later,
+  //                          3 the same and keep the ContextSptr as well, 4 next() inside the callback, then keep the context d passes
+  //   last stage:            0/1/4 answer, 2/3 keep the NextFunc (and context), call it d passes later (nothing follows: default
+  //                          404), 5 call next() inside the callback (default 404)
+  const int nst = ps.cfg ? 1 + (int)ps.cfg->in(2, 0, 3) : 1;
+  struct Chain { int act[4]; int delay[4]; int answer; bool defers; };
+  std::vector<Chain> chain;
+  int max_defer = 0;
+  for (auto op : ps.reqs) {
+    Chain c; c.answer = -1; c.defers = false;
+    int64_t a = op->in(12, 0, 6 * 6 * 6 * 6 - 1), d = op->in(13, 0, 8 * 8 * 8 * 8 - 1);
+    bool reached = true; int sum = 0;
+    for (int st = 0; st < 4; ++st) {
+      c.act[st] = (int)(a % 6); a /= 6; c.delay[st] = 1 + (int)(d % 8); d /= 8;
+      if (st >= nst || !reached) continue;
+      bool last = st + 1 == nst; int x = c.act[st];
+      if (x == 1 || (last && (x == 0 || x == 4))) { c.answer = st; reached = false; }
+      else if (x == 2 || x == 3) { c.defers = true; sum += c.delay[st]; }
+      else if (x == 4) sum += c.delay[st];
+    }
+    max_defer = std::max(max_defer, sum);
+    chain.push_back(c);
+  }
+  const bool two_stage = nst >= 2;
   const int rd_mode = ps.cfg ? (int)ps.cfg->in(3, 0, 2) : 0;
   const size_t rd_chunk = ps.cfg ? (size_t)ps.cfg->in(4, 1, 65536) : 65536;
   const int rd_passes = ps.cfg ? (int)ps.cfg->in(5, 0, 60) : 0;
@@ -549,32 +672,71 @@ std::string run_pipeline(const Scenario &s, CaseInfo &info) {
   std::string err;                        // first oracle violation
   auto fail = [&](const std::string &m) { if (err.empty()) err = m; };
 
+  std::vector<Deferred> deferred;
+  std::map<const void*, int> ctx_idx;     // context object -> request index (set at hand-over)
+  std::vector<int> progress;              // per request: next stage expected to run
+  bool chain_deferred = false, chain_early_answer = false, chain_fallthrough = false, chain_keep_ctx = false, chain_next_only = false;
+
   auto release = [&](size_t i) {
     Held h = std::move(held[i]); held.erase(held.begin() + i);
-    completed_order.push_back(h.idx);
-    h.ctx.reset();                        // last reference: the response is committed here
+    if (h.counts) completed_order.push_back(h.idx);
+    h.ctx.reset();                        // possibly the last reference: the response is committed then
   };
-  auto work = [&](tbox::http::server::ContextSptr ctx) {
-    int idx = arrivals++;
-    // complete the handlers that wait for "the next hand-over" (inside this callback, before answering this one)
-    for (size_t i = 0; i < held.size();) if (held[i].at_next) release(i); else ++i;
-    if (idx >= nreq) { fail("handler called " + std::to_string(idx + 1) + " times, only " + std::to_string(nreq) + " requests were sent"); return; }
-    const Request &rq = ctx->req();
-    auto it = rq.headers.find("X-Req");
-    if (it == rq.headers.end() || it->second != std::to_string(idx))
-      fail("hand-over " + std::to_string(idx) + " delivered the request with X-Req '" + (it == rq.headers.end() ? "<none>" : printable(it->second)) + "' (requests reach the handler out of order or damaged)");
-    std::string d = request_diff(rq, p.reqs[idx]);
-    if (!d.empty()) fail("request " + std::to_string(idx) + " as handed to the handler: " + d);
+  auto answer = [&](int idx, int st, tbox::http::server::ContextSptr ctx) {
     auto &res = ctx->res();
     res.status_code = tbox::http::StatusCode::k200_OK;
-    res.headers["X-Id"] = it == rq.headers.end() ? "none" : it->second;
+    res.headers["X-Id"] = std::to_string(idx);
+    res.headers["X-Stage"] = std::to_string(st);
     res.body.resize(plan[idx].rsize);
     for (size_t j = 0; j < res.body.size(); ++j) res.body[j] = body_byte(idx, j);
     if (plan[idx].k == 0) { completed_order.push_back(idx); return; }   // completes inside the callback
-    held.push_back({cur_pass + plan[idx].k, plan[idx].rank, idx, plan[idx].k == 41, std::move(ctx)});
+    held.push_back({cur_pass + plan[idx].k, plan[idx].rank, idx, plan[idx].k == 41, true, std::move(ctx)});
   };
-  if (two_stage) srv->use([&](tbox::http::server::ContextSptr, const tbox::http::server::NextFunc &next) { next(); });
-  srv->use([&](tbox::http::server::ContextSptr ctx, const tbox::http::server::NextFunc &) { work(std::move(ctx)); });
+  auto stage = [&](int st, tbox::http::server::ContextSptr ctx, const tbox::http::server::NextFunc &next) {
+    int idx;
+    if (st == 0) {
+      idx = arrivals++;
+      if (arrivals > nreq + 8) throw Runaway();    // the server hands over "requests" for ever: get out of its loop
+      // complete the handlers that wait for "the next hand-over" (inside this callback, before answering this one)
+      for (size_t i = 0; i < held.size();) if (held[i].at_next) release(i); else ++i;
+      const Request &rq = ctx->req();
+      std::string dl = declared_length_violation(rq);
+      if (!dl.empty()) fail("hand-over " + std::to_string(idx) + ": " + dl);
+      if (idx >= nreq) {
+        if (idx == nreq && p.tail_kind != 0)
+          fail("the incomplete last request (Content-Length " + p.tail_declared + ", " + std::to_string(p.tail_body) + " body bytes sent) was handed to the handler with a body of " + std::to_string(rq.body.size()) + " bytes");
+        else fail("handler called " + std::to_string(idx + 1) + " times, only " + std::to_string(nreq) + " requests were sent");
+        return;
+      }
+      auto it = rq.headers.find("X-Req");
+      if (it == rq.headers.end() || it->second != std::to_string(idx))
+        fail("hand-over " + std::to_string(idx) + " delivered the request with X-Req '" + (it == rq.headers.end() ? "<none>" : printable(it->second)) + "' (requests reach the handler out of order or damaged)");
+      std::string d = request_diff(rq, p.reqs[idx]);
+      if (!d.empty()) fail("request " + std::to_string(idx) + " as handed to the handler: " + d);
+      ctx_idx[ctx.get()] = idx;
+      progress.resize(std::max(progress.size(), (size_t)idx + 1), 0);
+    } else {
+      auto it = ctx_idx.find(ctx.get());
+      if (it == ctx_idx.end()) { fail("stage " + std::to_string(st) + " of the handler chain was entered with a context that was never handed to stage 0"); return; }
+      idx = it->second;
+    }
+    if (progress[idx] != st) { fail("request " + std::to_string(idx) + ": stage " + std::to_string(st) + " of the handler chain entered, stage " + std::to_string(progress[idx]) + " was due (a stage skipped or run twice)"); return; }
+    progress[idx] = st + 1;
+    const Chain &c = chain[idx];
+    const bool last = st + 1 == nst;
+    const int x = c.act[st];
+    if (x == 1 || (last && (x == 0 || x == 4))) { chain_early_answer |= !last; answer(idx, st, std::move(ctx)); return; }
+    if (x == 2 || x == 3) {
+      chain_deferred = true; chain_keep_ctx |= x == 3; chain_next_only |= x == 2; chain_fallthrough |= last;
+      deferred.push_back({cur_pass + c.delay[st], plan[idx].rank, idx, st, next, x == 3 ? ctx : tbox::http::server::ContextSptr()});
+      return;
+    }
+    chain_fallthrough |= last;
+    next();
+    if (x == 4) held.push_back({cur_pass + c.delay[st], plan[idx].rank, idx, false, false, std::move(ctx)});
+  };
+  for (int st = 0; st < nst; ++st)
+    srv->use([&stage, st](tbox::http::server::ContextSptr ctx, const tbox::http::server::NextFunc &next) { stage(st, std::move(ctx), next); });
 
   // ---- client
   int cfd = ::socket(AF_UNIX, SOCK_STREAM | SOCK_NONBLOCK | SOCK_CLOEXEC, 0);
@@ -596,7 +758,9 @@ std::string run_pipeline(const Scenario &s, CaseInfo &info) {
       }
       std::string head = rx.substr(rx_parsed, he - rx_parsed);
       if (head.compare(0, 5, "HTTP/") != 0) { fail("client stream: bytes after response " + std::to_string(responses - 1) + " are not a response: '" + printable(head, 40) + "'"); return; }
-      long clen = -1; std::string id;
+      long clen = -1; std::string id, stage_hdr;
+      std::string status = head.substr(0, head.find("\r\n"));
+      { size_t sp = status.find(' '); status = sp == std::string::npos ? "" : status.substr(sp + 1, 3); }
       size_t ls = head.find("\r\n");
       while (ls != std::string::npos) {
         size_t le = head.find("\r\n", ls + 2);
@@ -609,6 +773,7 @@ std::string run_pipeline(const Scenario &s, CaseInfo &info) {
           while (!v.empty() && v.back() == ' ') v.pop_back();
           if (k == "content-length") clen = atol(v.c_str());
           if (k == "x-id") id = v;
+          if (k == "x-stage") stage_hdr = v;
         }
         ls = le;
       }
@@ -620,6 +785,16 @@ std::string run_pipeline(const Scenario &s, CaseInfo &info) {
                             : "more responses than requests: extra response with X-Id " + id);
         return;
       }
+      if (chain[j].answer < 0) {
+        // the chain of request j ends without an answer: the server's default response, once the chain is through
+        if (status != "404" || !id.empty() || clen != 0) { fail("response " + std::to_string(j) + " on the wire is '" + printable(head, 50) + "' (" + std::to_string(clen) + " body bytes, X-Id '" + id + "'); no stage of the handler chain answers request " + std::to_string(j) + ", the default 404 was due"); return; }
+        ++responses; rx_parsed = he + 4; continue;
+      }
+      if (status != "200" || stage_hdr != std::to_string(chain[j].answer)) {
+        fail("response " + std::to_string(j) + " on the wire has status " + status + ", X-Id '" + id + "', X-Stage '" + stage_hdr + "'; stage " + std::to_string(chain[j].answer) + " of the handler chain answers request " + std::to_string(j) + " with 200" +
+             (chain[j].defers ? " after a deferred next() (answered before its handler chain was through?)" : ""));
+        return;
+      }
       if (id != std::to_string(j)) { fail("response " + std::to_string(j) + " on the wire carries X-Id " + id + " (responses out of request order, duplicated or lost); handlers completed in order " + [&] { std::string o; for (int x : completed_order) o += std::to_string(x) + " "; return o; }()); return; }
       if ((size_t)clen != plan[j].rsize) { fail("response " + std::to_string(j) + " has Content-Length " + std::to_string(clen) + ", handler set " + std::to_string(plan[j].rsize) + " bytes"); return; }
       for (size_t k = 0; k < (size_t)clen; ++k) if (rx[he + 4 + k] != body_byte(j, k)) { fail("response " + std::to_string(j) + ": body byte " + std::to_string(k) + " of " + std::to_string(clen) + " is not what the handler wrote"); return; }
@@ -629,7 +804,9 @@ std::string run_pipeline(const Scenario &s, CaseInfo &info) {
     }
   };
 
-  const int limit = 300 + total_gap + max_k + rd_passes + rd_pause + (int)(total_resp / 2048) + 3 * (int)segs.size();
+  const int limit = 300 + total_gap + max_k + max_defer + rd_passes + rd_pause + (int)(total_resp / 2048) + 3 * (int)segs.size();
+  bool runaway = false;
+  try {
   vloop::drive(loop.get(), [&](int pass) {
     cur_pass = pass;
     clk.now += 1;
@@ -648,6 +825,17 @@ std::string run_pipeline(const Scenario &s, CaseInfo &info) {
       if (seg_off < sg.to - sg.from) break;
       ++seg_i; seg_off = 0; send_at = pass + 1 + sg.gap; wait_drain = 6;
       break;
+    }
+    // 2a. deferred next() calls that are due (made here, i.e. outside any server callback, some passes after the stage
+    //     returned), by (due, rank); afterwards the stage drops its NextFunc (and context)
+    for (;;) {
+      int best = -1;
+      for (size_t i = 0; i < deferred.size(); ++i)
+        if (pass >= deferred[i].due && (best < 0 || std::make_pair(deferred[i].due, deferred[i].rank) < std::make_pair(deferred[best].due, deferred[best].rank))) best = (int)i;
+      if (best < 0) break;
+      Deferred d = std::move(deferred[(size_t)best]); deferred.erase(deferred.begin() + best);
+      d.next();
+      d.next = nullptr; d.ctx.reset();
     }
     // 2. handlers that complete in this pass (outside any callback), by (due, rank)
     for (;;) {
@@ -674,11 +862,21 @@ std::string run_pipeline(const Scenario &s, CaseInfo &info) {
     if (!err.empty()) return false;
     // 4. done?
     bool tx_done = tx_dead || seg_i >= segs.size();
-    if (rx_closed && held.empty()) return false;
-    if (close_pos < 0 && tx_done && held.empty() && arrivals >= nreq && responses >= N) { if (++quiet > 12) return false; }
+    if (rx_closed && held.empty() && deferred.empty()) return false;
+    if (close_pos < 0 && tx_done && held.empty() && deferred.empty() && arrivals >= nreq && responses >= N) { if (++quiet > 12) return false; }
     if (pass > limit) return false;   // the verdict below says what is still missing
     return true;
   });
+  } catch (const Runaway &) { runaway = true; }
+  if (runaway) {
+    // The exception unwound through the server's and the loop's callbacks: those objects are in an undefined state and
+    // are abandoned (leaked) on purpose.  This path is only taken on a tree that violates the property.
+    fail("the server keeps handing over requests without end: handler called " + std::to_string(arrivals) + " times, " + std::to_string(nreq) + " requests were sent");
+    std::string e = "handler called without end (" + std::to_string(arrivals) + " hand-overs for " + std::to_string(nreq) + " requests" + (p.tail_kind ? ", incomplete last request with Content-Length " + p.tail_declared : "") + "): the server's receive loop does not terminate; first violation: " + err;
+    deferred.clear(); held.clear();
+    (void)srv.release(); (void)loop.release(); ::close(cfd);
+    return e;
+  }
 
   // ---- verdict
   if (err.empty()) {
@@ -696,6 +894,7 @@ std::string run_pipeline(const Scenario &s, CaseInfo &info) {
   }
 
   // ---- teardown (pending handlers first: a Context must not outlive its server)
+  deferred.clear();
   while (!held.empty()) release(0);
   srv->cleanup();
   srv.reset();
@@ -717,6 +916,12 @@ std::string run_pipeline(const Scenario &s, CaseInfo &info) {
   info.cls_if(out_of_order, "completed_out_of_order"); info.cls_if(at_next, "completed_inside_next_hand_over");
   info.cls_if(big, "response_over_64KiB"); info.cls_if(close_pos >= 0 && plan[close_pos].rsize > 64 * 1024, "closing_response_over_64KiB");
   info.cls_if(rd_mode != 0, "paced_client_reads"); info.cls_if(two_stage, "two_stage_handler");
+  info.cls_if(nst >= 3, "chain_of_3_or_4_stages");
+  info.cls_if(chain_deferred, "next_deferred_to_a_later_pass"); info.cls_if(chain_next_only, "next_deferred_without_keeping_the_context");
+  info.cls_if(chain_keep_ctx, "next_deferred_keeping_the_context"); info.cls_if(chain_early_answer, "answered_by_an_earlier_stage");
+  info.cls_if(chain_fallthrough, "chain_ends_without_answer_default_404");
+  info.cls_if(p.tail_kind != 0, "incomplete_last_request"); info.cls_if(p.tail_kind == 1 || p.tail_kind == 2, "incomplete_last_request_length_near_2^64");
+  info.cls_if(p.tail_kind != 0 && close_pos < 0 && !p.cut_tail, "incomplete_last_request_head_in_one_segment_reaches_parser");
   info.cls_if(N >= 3, "three_or_more_answered"); info.cls_if(segs.size() > 1, "segmented");
   info.cls_if(p.cut_method || p.cut_hname || p.cut_crlf, "cut_inside_method_or_header_line");
   info.cls_if(close_errno != 0, "close_seen_as_ECONNRESET");
@@ -734,6 +939,10 @@ void gen_req_common(Rng &g, std::vector<int64_t> &a, int64_t kind) {
   a = {g.in(0, 6), kind, g.pick({{2, 0}, {6, -1}}) == 0 ? g.in(0, 3) * 8 : g.in(0, 127), g.in(0, 1 << 30),
        g.pick({{2, 0}, {3, 1}, {3, 2}, {2, 3}, {1, 4}, {1, 5}, {1, 6}}), g.in(0, 1 << 30), blen, g.in(0, 5), g.in(0, 1 << 30)};
 }
+// an incomplete last request (see build_tail); mostly lengths just below 2^64
+void gen_tail(Rng &g, std::vector<Op> &v) {
+  v.push_back(mk(TAIL, {g.pick({{3, 1}, {4, 2}, {2, 3}, {2, 4}}), g.in(0, 400), g.pick({{5, 0}, {3, -1}}) == 0 ? 0 : g.in(1, 7), g.pick({{3, 0}, {2, 3}, {3, -1}}) < 0 ? g.in(1, 12) : g.in(0, 3)}));
+}
 void gen_cuts(Rng &g, std::vector<Op> &v, int nreq, int maxcuts) {
   int nc = (int)g.in(0, maxcuts);
   for (int i = 0; i < nc; ++i)
@@ -746,7 +955,9 @@ Scenario expand_segmentation(int64_t seed) {
   int nreq = (int)g.pick({{2, 1}, {3, 2}, {3, 3}, {2, 4}, {1, 5}, {1, 6}});
   v.push_back(mk(CFG, {g.pick({{6, 0}, {2, 1}, {2, 2}}), g.in(1, 64)}));
   for (int i = 0; i < nreq; ++i) { std::vector<int64_t> a; gen_req_common(g, a, g.in(0, 5)); v.push_back(mk(REQ, a)); }
-  gen_cuts(g, v, nreq, 14);
+  bool tail = g.chance(25);
+  if (tail) gen_tail(g, v);
+  gen_cuts(g, v, nreq, tail && g.chance(60) ? 3 : 14);
   return sc;
 }
 
@@ -755,7 +966,8 @@ Scenario expand_pipeline(int64_t seed) {
   Scenario sc; auto &v = sc.ops;
   int nreq = (int)g.pick({{1, 1}, {2, 2}, {3, 3}, {4, 4}, {3, 5}, {3, 6}});
   int close_pos = g.chance(30) ? -1 : (nreq >= 4 && g.chance(60)) ? (int)g.in(2, nreq - 2) : (g.chance(60) && nreq > 1) ? (int)g.in(0, nreq - 2) : (int)g.in(0, nreq - 1);
-  v.push_back(mk(CFG, {g.pick({{7, 0}, {1, 1}, {2, 2}}), g.in(1, 64), g.in(0, 1), g.pick({{2, 0}, {1, 1}, {1, 2}}),
+  const int nst = (int)g.pick({{3, 1}, {4, 2}, {2, 3}, {1, 4}});
+  v.push_back(mk(CFG, {g.pick({{7, 0}, {1, 1}, {2, 2}}), g.in(1, 64), nst - 1, g.pick({{2, 0}, {1, 1}, {1, 2}}),
                        g.pick({{1, 1}, {2, -1}, {2, -2}}) , g.in(0, 60), g.in(0, 30)}));
   if (v.back().a[4] == -1) v.back().a[4] = g.in(2, 4096); else if (v.back().a[4] == -2) v.back().a[4] = g.in(4097, 65536);
   bool all_sync = g.chance(10);
@@ -769,8 +981,19 @@ Scenario expand_pipeline(int64_t seed) {
     int64_t rs = g.pick({{3, 0}, {5, -1}, {2, -2}, {2, -3}});
     if (rs == -1) rs = g.in(1, 300); else if (rs == -2) rs = g.in(301, 70000); else if (rs == -3) rs = g.in(70001, 200 * 1024); else rs = 0;
     a.push_back(k); a.push_back(rs); a.push_back(g.in(0, 7));
+    // handler chain: action and delay digit per stage (see run_pipeline)
+    int64_t acts = 0, delays = 0, mul6 = 1, mul8 = 1;
+    bool plain_chain = g.chance(30);    // every stage passes on inside the callback, the last one answers
+    for (int st = 0; st < 4; ++st) {
+      int64_t x = plain_chain ? 0 : st + 1 < nst ? g.pick({{5, 0}, {1, 1}, {3, 2}, {3, 3}, {1, 4}}) : g.pick({{24, 0}, {1, 2}, {1, 3}, {1, 5}});
+      acts += x * mul6; mul6 *= 6;
+      delays += g.pick({{3, 0}, {2, 1}, {1, -1}}) < 0 ? g.in(2, 7) * mul8 : g.in(0, 1) * mul8; mul8 *= 8;
+    }
+    a.push_back(acts); a.push_back(delays);
     v.push_back(mk(REQ, a));
   }
+  bool tail = g.chance(close_pos < 0 ? 45 : 10);
+  if (tail) gen_tail(g, v);
   gen_cuts(g, v, nreq, 8);
   return sc;
 }
@@ -781,10 +1004,12 @@ Scenario expand_total(int64_t seed) {
   int nreq = (int)g.in(1, 3);
   std::string w;
   std::vector<size_t> marks;     // interesting cut positions
+  std::vector<std::pair<size_t, size_t>> where;   // (start, head length) of every request
   for (int i = 0; i < nreq; ++i) {
     std::vector<int64_t> a; gen_req_common(g, a, g.in(0, 5));
     if (a[6] > 64) a[6] = g.in(0, 64);
     MReq m = build_request(mk(REQ, a), i, false);
+    where.push_back({w.size(), m.body_off});
     for (size_t x : m.crlf) marks.push_back(w.size() + x + 1);
     marks.push_back(w.size() + 1 + (size_t)g.in(0, (int64_t)m.mlen - 1));
     marks.push_back(w.size() + m.body_off);
@@ -793,6 +1018,33 @@ Scenario expand_total(int64_t seed) {
   static const char *bad_numbers[] = {"abc", "", " ", "-1", "-5", "99999999999999999999", "4294967296", "2147483648", "2147483647", "0x10", "1e3", "+3", "3 3", "3x",
                                       "18446744073709551615", "18446744073709551616", "9223372036854775808", "00000000000000000000000000000000000003", "\xd9\xa3", "٣٤"};
   int nm = (int)g.pick({{1, 0}, {4, 1}, {3, 2}, {2, 3}, {1, 5}});
+  // A fifth of the cases: a syntactically valid head with an extreme Content-Length - boundary values of 32/63/64 bit
+  // arithmetic, and values just below 2^64 chosen relative to the length of this very head (2^64 - head length, 2^64 - k
+  // for k up to a little more than the head length), with leading zeros / plus sign / >= 2^64 variants.  Mostly
+  // without further damage and often unsegmented, so that head and length test meet in one parse() call.
+  bool extreme = g.chance(20);
+  if (extreme) {
+    auto &rq = where[(size_t)g.in(0, nreq - 1)];
+    size_t c = w.find("Content-Length:", rq.first), e = c == std::string::npos ? c : w.find("\r\n", c);
+    if (e != std::string::npos) {
+      size_t vbeg = c + 15, oldlen = e - vbeg;
+      std::string lead = g.chance(70) ? " " : g.chance(50) ? "" : "  ";
+      std::string zeros = g.chance(25) ? std::string((size_t)g.in(1, 6), '0') : "";
+      size_t head = rq.second - oldlen + lead.size() + zeros.size() + 20;      // head length with a 20-digit value
+      std::string val;
+      switch (g.pick({{4, 0}, {4, 1}, {2, 2}, {3, 3}})) {
+        case 0: val = dec_u64((uint64_t)0 - (uint64_t)head); break;
+        case 1: val = dec_u64((uint64_t)0 - (uint64_t)g.in(1, (int64_t)head + 40)); break;
+        case 2: { size_t line = e + 2 - w.rfind("\r\n", c) - 2; val = dec_u64((uint64_t)0 - (uint64_t)(g.chance(50) ? line + 2 : head - (size_t)g.in(0, (int64_t)std::min<size_t>(head - 1, 30)))); break; }
+        default: { static const char *c3[] = {"0", "1", "2147483647", "2147483648", "4294967295", "4294967296", "4294967297", "9007199254740993", "9223372036854775807", "9223372036854775808",
+                                              "9999999999999999999", "10000000000000000000", "18446744073709551614", "18446744073709551615", "18446744073709551616", "18446744073709551617",
+                                              "36893488147419103232", "100000000000000000000", "+5", "+0", "+18446744073709551600"};
+                   val = c3[g.in(0, 20)]; break; }
+      }
+      w.replace(vbeg, oldlen, lead + zeros + val);
+      nm = g.chance(80) ? 0 : 1;
+    }
+  }
   for (int k = 0; k < nm && !w.empty(); ++k) {
     size_t at = (size_t)g.in(0, (int64_t)w.size() - 1);
     switch (g.pick({{5, 0}, {4, 1}, {2, 2}, {1, 3}, {2, 4}, {3, 5}, {3, 6}, {2, 7}, {3, 8}})) {
@@ -809,7 +1061,7 @@ Scenario expand_total(int64_t seed) {
     }
   }
   std::set<size_t> cuts;
-  switch (g.pick({{2, 0}, {2, 1}, {3, 2}, {4, 3}})) {
+  switch (extreme && g.chance(55) ? 0 : g.pick({{2, 0}, {2, 1}, {3, 2}, {4, 3}})) {
     case 0: break;
     case 1: for (size_t c = 1; c < w.size(); ++c) cuts.insert(c); break;
     case 2: { size_t c = 0; while (c < w.size()) { c += (size_t)g.in(1, 24); cuts.insert(c); } break; }
@@ -864,8 +1116,8 @@ rc::Gen<Scenario> from_seed(Scenario (*expand)(int64_t), bool bytes) {
 
 SubDef def_total = [] {
   SubDef d; d.name = "parser_total";
-  d.op_names = {"cfg", "req", "cut", "seg"};
-  d.op_arity = {0, 0, 0, 8};
+  d.op_names = {"cfg", "req", "cut", "seg", "tail"};
+  d.op_arity = {0, 0, 0, 8, 0};
   d.nt_rule = "the stream was fed in >= 2 segments and the parser got past the start line of a request";
   d.run = run_total;
   d.decode = decode_total;
@@ -878,8 +1130,8 @@ VERIF_REGISTER(&def_total);
 
 SubDef def_seg = [] {
   SubDef d; d.name = "segmentation";
-  d.op_names = {"cfg", "req", "cut", "seg"};
-  d.op_arity = {2, 9, 4, 0};
+  d.op_names = {"cfg", "req", "cut", "seg", "tail"};
+  d.op_arity = {2, 9, 4, 0, 4};
   d.nt_rule = "some cut falls inside a method name or inside the header block (header name, header line or between CR and LF)";
   d.run = run_segmentation;
 #ifndef VERIF_ENGINE_FUZZ
@@ -891,8 +1143,8 @@ VERIF_REGISTER(&def_seg);
 
 SubDef def_pipe = [] {
   SubDef d; d.name = "pipeline";
-  d.op_names = {"cfg", "req", "cut", "seg"};
-  d.op_arity = {7, 12, 4, 0};
+  d.op_names = {"cfg", "req", "cut", "seg", "tail"};
+  d.op_arity = {7, 14, 4, 0, 4};
   d.nt_rule = ">= 3 pipelined requests answered, handlers completed out of request order, and a closing request (Connection: close / HTTP/1.0) that is not the last request sent";
   d.run = run_pipeline;
 #ifndef VERIF_ENGINE_FUZZ
